@@ -19,6 +19,7 @@ type trPrim struct {
 	mutRecv bool                                                 // statement-only: the receiver variable is rebound to the result
 	results bool                                                 // with mutRecv: the Lean function returns the new receiver first, then the results (trans_units_jprinter.go)
 	args   func(c *trCtx, call *ast.CallExpr) []ast.Expr // optional: checks the call and selects the arguments that are translated
+	leanOf func(c *trCtx, call *ast.CallExpr) string     // optional: the prelude function depends on the call (time.Parse by its constant layout: trans_units_import.go)
 }
 
 var trPrims = map[string]trPrim{
@@ -466,7 +467,7 @@ func (c *trCtx) ident(x *ast.Ident) string {
 // holds no pointer the callee could write through: pointers are values there). The arguments are not translated.
 func (c *trCtx) externalCall(fobj *types.Func, x *ast.CallExpr) (string, bool) {
 	full := fobj.FullName()
-	if fobj.Pkg() == nil || !strings.HasPrefix(fobj.Pkg().Path(), trKnutPath) {
+	if fobj.Pkg() == nil || (!strings.HasPrefix(fobj.Pkg().Path(), trKnutPath) && !trExtStd[full]) { // (trExtStd: trans_units_import.go)
 		return "", false
 	}
 	if _, ok := trPinned[fobj.Origin().FullName()]; ok {
@@ -1031,6 +1032,9 @@ func (c *trCtx) call(x *ast.CallExpr) string {
 			trFail(x.Pos(), "%s inside an expression is outside the subset (statement only)", full)
 		}
 		app := p.lean + " " + strings.Join(args, " ")
+		if p.leanOf != nil {
+			app = p.leanOf(c, x) + " " + strings.Join(args, " ")
+		}
 		if p.effect {
 			return c.hoist(app, x.Pos())
 		}
